@@ -254,6 +254,7 @@ class Ops:
                 span = b.span and a.deg == Z
         elif opname == "mul":
             deg = deg_add(a.deg, b.deg)
+            self.note_degree(deg, a, b, node)
             if a_c and b_c:
                 if q:
                     self.clear("q", "element-wise product of two column-indexed values", node)
@@ -270,6 +271,7 @@ class Ops:
         elif opname == "pow":
             k = b.poly.const_value() if b.poly is not None else None
             deg = deg_scale(a.deg, k) if k is not None else (a.deg if a.deg in (F0,) and b.deg in (F0, Z) else None)
+            self.note_degree(deg, a, b, node)
             if a_c:
                 if q:
                     self.clear("q", "element-wise power of a column-indexed value", node)
@@ -781,6 +783,64 @@ class Ops:
             return ("concrete", [v.fields[f] for f in v.tuple_fields])  # NamedTuple instance: its fields, in declaration order
         return ("abstract", v)
 
+    def symbols_in(self, v, depth=0) -> set:
+        """Size symbols occurring in the closed forms of a value (recursively through containers)."""
+        out = set()
+        if depth > 6:
+            return out
+        if isinstance(v, TV):
+            if v.poly is not None:
+                todo = [str(x) for x in v.poly.symbols()]
+                while todo:
+                    sy = todo.pop()
+                    if sy in out:
+                        continue
+                    out.add(sy)
+                    for pl in self.sym_defs.get(sy, ())[1:]:  # derived symbols (min#3 = min(k, m)) stand for what they are derived from
+                        if isinstance(pl, Poly):
+                            todo += [str(x) for x in pl.symbols()]
+        elif isinstance(v, (ListV, SetV)):
+            for x in (v.items if v.items is not None else [v.elem]):
+                if x is not None:
+                    out |= self.symbols_in(x, depth + 1)
+        elif isinstance(v, DictV):
+            for k_, x in (v.items or ()):
+                out |= self.symbols_in(k_, depth + 1) | self.symbols_in(x, depth + 1)
+            if v.items is None:
+                for x in (v.keys, v.val):
+                    if x is not None:
+                        out |= self.symbols_in(x, depth + 1)
+        return out
+
+    def atoms_in(self, v, depth=0) -> set:
+        out = set()
+        if depth > 6:
+            return out
+        if isinstance(v, TV):
+            out |= set(v.origin)
+        elif isinstance(v, (ListV, SetV)):
+            for x in (v.items if v.items is not None else [v.elem]):
+                if x is not None:
+                    out |= self.atoms_in(x, depth + 1)
+        elif isinstance(v, DictV):
+            for k_, x in (v.items or ()):
+                out |= self.atoms_in(k_, depth + 1) | self.atoms_in(x, depth + 1)
+            if v.items is None:
+                for x in (v.keys, v.val):
+                    if x is not None:
+                        out |= self.atoms_in(x, depth + 1)
+        return out
+
+    def note_degree(self, deg, a, b, node):
+        """Records products / powers whose result scales like the input to a power > 1 (or < -1... not recorded): with an input of
+        magnitude M the intermediate has magnitude M^deg, whatever is done to it afterwards."""
+        if isinstance(deg, Fraction) and deg > 1 and not ((a.is_py and a.kind != "tensor") and (b.is_py and b.kind != "tensor")):
+            self.ev("deg_high", node, deg=str(deg), left=a.short(), right=b.short(), origin=sorted(a.origin | b.origin))
+
+    def unpack_list(self, v, n, node):
+        """Positions of an abstract sequence unpacked into n names, when positions mean something (a tensor's shape); else None."""
+        return None
+
     def unpack(self, v, n, node):
         tv = tv_of(v)
         if tv is not None and tv.axes:
@@ -987,7 +1047,16 @@ class Ops:
             else:
                 # nested abstract generator inside a concrete one
                 if kind == "dict":
-                    return lf if len(leaves) == 1 else DictV(items=None, keys=None, val=None)
+                    if len(leaves) == 1:
+                        return lf
+                    # {k: v for d in (d1, d2, ...) for k, v in d.items()}: the union of the dictionaries the inner generators yield, later ones winning
+                    parts = [DictV(items=(x[1],)) if isinstance(x, tuple) and x and x[0] == "leaf" else x for x in leaves]
+                    if all(isinstance(x, DictV) for x in parts):
+                        out = parts[0]
+                        for x in parts[1:]:
+                            out = self.dict_union(out, x, n)
+                        return out
+                    return DictV(items=None, keys=None, val=None)
                 if len(leaves) == 1:
                     return lf
                 out = leaves[0]
@@ -1037,7 +1106,7 @@ class Ops:
         if isinstance(obj, ObjV):
             in_init = any(f.name == "__init__" for f in self.interp.call_stack)
             if not in_init:
-                self.ev("self_write", st, attr=attr, cls=obj.cls.qualname)
+                self.ev("self_write", st, attr=attr, cls=obj.cls.qualname, value_syms=sorted(self.symbols_in(v)), value_atoms=sorted(self.atoms_in(v)))
             if getattr(obj, "summary", False):
                 # a store on the summary of several instances is a weak update
                 self.ev("lost_mutation", st, attr=attr)
